@@ -8,8 +8,12 @@
     segments;
   * `C19_gcc_marker_exact`, `C19_pcpp_marker_exact`: "names the main file" is equality of
     the quoted file name (not a suffix/prefix test), whatever the files are called.
-  What the external tools emit, include resolution, macro expansion, the depfile writer and
-  the MSVC back end are exercised by the correspondence / oracle only (named in evidence).
+  * `C19_msvc_filter_spec`, `C19_msvc_marker_exact`: the same for `_msvc_filter`, whose main
+    file is the one named by the first `#line` line (its suffix test is an equality test
+    because the compared text starts at the opening quote).
+  What the external tools emit, include resolution, macro expansion and the depfile writer are
+  exercised by the correspondence / oracle only (named in evidence); cl.exe is not available,
+  so the MSVC filter is tied to the code on synthetic MSVC-format output.
 -/
 import CxxModel.PPFilter
 import CxxModel.LexTypes
@@ -40,11 +44,38 @@ theorem C19_pcpp_marker_exact (fname file pre : Str)
     pcppMarkerKeep fname (pre ++ [34] ++ file ++ [34, 10]) = some (file == fname) :=
   pcppMarkerKeep_exact fname file pre hp hn
 
+theorem C19_msvc_filter_spec (first : Str) (segs : List Segment)
+    (hfirst : isPrefix [35, 108, 105, 110, 101] first = true)
+    (hm : ∀ s ∈ segs, (msvcMarkerKeep (msvcFname first) s.marker).isSome)
+    (hb : ∀ s ∈ segs, ∀ l ∈ s.body, msvcMarkerKeep (msvcFname first) l = none) (body0 : List Str)
+    (hb0 : ∀ l ∈ body0, msvcMarkerKeep (msvcFname first) l = none) :
+    msvcFilter (first :: body0 ++ segs.flatMap Segment.lines) =
+      some (body0 ++ (segs.filter (fun s => msvcMarkerKeep (msvcFname first) s.marker = some true)).flatMap Segment.lines) := by
+  simp only [msvcFilter, List.cons_append, List.headD_cons, hfirst, ↓reduceIte, List.drop_succ_cons, List.drop_zero, Option.some.injEq]
+  have body_lemma : ∀ (body tail : List Str), (∀ l ∈ body, msvcMarkerKeep (msvcFname first) l = none) →
+      segFilter (msvcMarkerKeep (msvcFname first)) true (body ++ tail) =
+        body ++ segFilter (msvcMarkerKeep (msvcFname first)) true tail := by
+    intro body tail hbody
+    induction body with
+    | nil => rfl
+    | cons l ls ih =>
+      have hl := hbody l (by simp)
+      simp [segFilter, hl, ih (fun x hx => hbody x (by simp [hx]))]
+  rw [body_lemma body0 _ hb0, segFilter_spec _ segs hm hb true]
+
+theorem C19_msvc_marker_exact (main file pre : Str) (hm : ∀ c ∈ main, c ≠ 34) (hf : ∀ c ∈ file, c ≠ 34)
+    (hp : ∀ c ∈ pre, c ≠ 34) (hpre : isPrefix [35, 108, 105, 110, 101] pre = true) :
+    msvcMarkerKeep ([34] ++ main ++ [34, 10]) (pre ++ [34] ++ file ++ [34, 10]) = some (decide (file = main)) :=
+  msvcMarkerKeep_exact main file pre hm hf hp hpre
+
 /-! non-vacuity: main `a.h`; markers for `xa.h` and `sub/a.h` are *not* the main file -/
 example : gccMarkerKeep (strToStr "a.h") (strToStr "# 1 \"xa.h\" 1\n") = some false := by decide
 example : gccMarkerKeep (strToStr "a.h") (strToStr "# 1 \"sub/a.h\" 1\n") = some false := by decide
 example : gccMarkerKeep (strToStr "a.h") (strToStr "# 3 \"a.h\" 2\n") = some true := by decide
 example : pcppMarkerKeep (strToStr "a.h") (strToStr "#line 1 \"sub/a.h\"\n") = some false := by decide
 example : pcppMarkerKeep (strToStr "a.h") (strToStr "#line 3 \"a.h\"\n") = some true := by decide
+example : msvcFilter [strToStr "#line 1 \"c:\\\\p\\\\a.h\"\n", strToStr "int m;\n", strToStr "#line 1 \"c:\\\\p\\\\xa.h\"\n",
+    strToStr "int o;\n", strToStr "#line 3 \"c:\\\\p\\\\a.h\"\n", strToStr "int n;\n"] =
+    some [strToStr "int m;\n", strToStr "#line 3 \"c:\\\\p\\\\a.h\"\n", strToStr "int n;\n"] := by decide
 
 end Cxx
